@@ -20,6 +20,8 @@ def available_checks():
 
 def digests(pid, n, tier='quick', base=777):
   check = runner._load_check(pid)
+  from worlds import common as _wc
+  _wc.TIER = tier
   out = []
   for stratum in check.PLAN[tier]['strata']:
     for i in range(n):
